@@ -47,6 +47,18 @@ PROPS = {
         "mc": L0_QUICK + L0_THOROUGH,
         "drivers": [drv("div", "debug"), drv("div", "release", tiers=T)],
     },
+    "C07": {
+        "mc": L0_QUICK + L0_THOROUGH,
+        "drivers": [drv("bits", "debug"), drv("bits", "release", tiers=T)],
+    },
+    "C09": {
+        "mc": L0_QUICK + L0_THOROUGH,
+        "drivers": [drv("bytes", "debug"), drv("bytes", "release", tiers=T)],
+    },
+    "C06": {
+        "mc": L0_QUICK + L0_THOROUGH,
+        "drivers": [drv("text", "debug"), drv("text", "release", tiers=T)],
+    },
 }
 
 # which properties own the value rule of an operation (a BAD event is a violation only for an owner)
@@ -61,9 +73,14 @@ def own(pid, ops):
 own("C01", "add sub checked_add checked_sub add_sc sub_sc rsub_sc")
 own("C02", "mul checked_mul mul_sc")
 own("C03", "div rem div_rem checked_div div_floor mod_floor div_mod_floor div_ceil div_euclid rem_euclid div_rem_euclid checked_div_euclid checked_rem_euclid checked_div_rem_euclid is_multiple_of")
-own("C09", "from_bytes_le new_u32")
+own("C07", "bitand bitor bitxor not shl shr bit set_bit bits trailing_zeros trailing_ones count_ones")
+own("C06", "to_str_radix fmt to_radix_le to_radix_be parse from_radix_le from_radix_be")
+own("C09", "from_bytes_le from_bytes_be new_u32 from_signed_bytes_le from_signed_bytes_be to_bytes_le to_bytes_be to_u32_digits to_u64_digits to_signed_bytes_le to_signed_bytes_be iter_collect iter")
 own("C19", "from_biguint clone")
 own("C04", "clone")
+
+# properties whose statement itself names a must-panic case (others leave missing panics to C14)
+FAILURE_STATED = {"C01", "C03", "C05", "C07", "C11", "C14", "C18"}
 
 # reasons owned by cross-cutting properties, whatever the operation
 REASON_OWNERS = {
